@@ -16,6 +16,16 @@ CHECKS = {
          "After every history (exhaustive to depth 5/7 on small geometries incl. a fault symbol that fails the next store write, epoch-wrap walks with 0..12 epoch advances between operations, seeded random walks with faults on large pools) the pool is drained with fresh subscribers and usable = held + obtainable is judged on measured values; Stats/List are compared with the model after every operation; exhaustion is accepted only when every usable unit is held.",
          "Trusted: the ownership/lease model (held iff epochs since last renew <= grace), documented usable-unit counts per implementation. Grace periods 1-2 only. Store faults are injected at the Store/AllocationStore interface boundary.",
          "DESIGN.md §5 C05"),
+ "C12": ("c12_restart", "fault_enumeration",
+         "restart-from-snapshot monitor: the real DistributedAllocator is restarted from the store snapshot taken after every store operation (several Query enumeration orders), store-write faults are injected at every history position, remote announcements are delivered to peer nodes in permuted order, and marshal/unmarshal round trips are compared by a query battery",
+         "Every (history, crash point after store op k, enumeration order) is judged against the records in snapshot k: each live record's subscriber must map to the recorded address after restart and no address to two subscribers; every injected store failure must leave memory and store in agreement; every delivered remote announcement for a locally free address must be applied with the announced address; restored allocators must answer a full query battery identically and agree on the success of a continuation. Epoch ticks run through the allocator's own ticker under testing/synctest.",
+         "Trusted: the harness Store (in-memory, implements allocator.Store) and the reading in DESIGN 5b (lapsed lease records create no obligation; single restart). Crash = abandon the object after store op k and restart over a snapshot: exact because all durable state is behind the Store interface.",
+         "DESIGN.md §5 C12"),
+ "C18": ("c18_antispoof", "exploration",
+         "differential execution of the real TC program (native ASan/UBSan build with guard pages + in-kernel BPF_PROG_TEST_RUN) on maps written by the real antispoof.Manager, judged by a reference decision function written from the property",
+         "All combinations of default mode x binding shape (absent, v4, v6, dual in both orders, removed, re-bound) x mode in force when bound x allowed-range sets, each probed with bound / near-miss / byte-reversed / random IPv4 and IPv6 sources, non-IP frames and every truncation; the maps are produced by the manager's own code writing into kernel maps of the loaded working-tree object, so key and value encodings are the real ones.",
+         "Trusted: the reference decision function; the native shim (cross-checked frame by frame against the in-kernel run; a disagreement is reported inconclusive). IPv6 loose mode is not judged.",
+         "DESIGN.md §5 C18"),
 }
 
 REASON_TODO = "check not yet built in this revision of /verif (planned in DESIGN.md §5); nothing is claimed for it"
@@ -58,6 +68,7 @@ def main():
         "engines": [
             {"name": "vk", "path": "harness/internal/vk", "serves_properties": [c["property_id"] for c in checks], "kind_free_text": "seeded PRNG streams, coverage counters, violation/known-finding matcher, race-log parser, evidence writer"},
             {"name": "pools", "path": "harness/internal/pools", "serves_properties": ["C01", "C05", "C12"], "kind_free_text": "adapters for every pool implementation + shadow ownership model + history generators"},
+            {"name": "cplane", "path": "cplane + harness/internal/cplane", "serves_properties": ["C03", "C06", "C07", "C18", "C19"], "kind_free_text": "bpf/*.c compiled natively (ASan+UBSan, guard-page packet arena, scripted clock, map store with sizes from the C declarations) and to BPF for in-kernel BPF_PROG_TEST_RUN"},
         ],
         "checks": checks,
         "not_applicable": na,
